@@ -144,6 +144,21 @@ PROPERTIES = {
         not_decided=['HTML and sitemap scrapers (lxml / html5lib cannot be imported in this sandbox): not examined', 'FTP client Session.start/download_listing bodies (asyncio.wait_for, '
                      'TextIOWrapper): only their callees are under contract', 'RobotsTxtChecker: C20'],
     ),
+    'C15': dict(
+        modules=['path'], level='proof', bounded=['c15_names.py'],
+        claim='Per-byte lemma on the real PercentEncoder.__missing__ for all 256 byte values and all 16 option combinations: the separator is escaped in unix and windows mode, '
+              'the nine Windows-reserved characters in windows mode, C0 controls when control escaping is on, every non-ASCII byte in ascii mode; a byte is kept or becomes %XX. '
+              'PercentEncoder.quote (join of the per-byte images): result free of those characters, non-empty for non-empty input, and a dot name only if the input is that dot '
+              'name. safe_filename: for every non-empty name in unix or windows mode no exception escapes, the result is non-empty and never "." or "..". '
+              'FileWriterSetupTask._build_file_writer: the OS mode handed to PathNamer is "unix" or "windows" for every option combination. One genuine defect (ValueError for '
+              'a trailing dot or space in Windows mode) was found by these obligations and repaired.',
+        note='assumed: str.lower/upper keep the classes and fix the dot names, PercentEncoder.quote keeps valid UTF-8 valid (both validated exhaustively per code point by the '
+             'stand-in); control character = C0 (0-31), as in Wget\'s --restrict-file-names; the _encoder_cache memo always holds an encoder built from its key. Bounded stand-in '
+             'c15_names.py (labelled bounded): whole paths from the real PathNamer.get_filename (urlsplit, unquote for FTP, os.path.join), safe_filename composition '
+             '(separator / reserved / control classes after truncation and case folding: these postconditions time out in all four solvers), Content-Disposition renaming.',
+        not_decided=['class-membership postconditions of safe_filename after the Windows / truncation / case steps: undecided deductively (solver timeouts), bounded only',
+                     'PathNamer.get_filename and _rename_with_content_disposition bodies (urlsplit, unquote, os.path.join): bounded only'],
+    ),
     'C16': dict(
         modules=['url', 'request'], level='proof', bounded=['c16_wire.py'],
         claim='RawRequest.to_bytes is request line + serialised fields + blank line and nothing else; Request.prepare_for_send sets the target to the parsed URL\'s '
